@@ -1070,6 +1070,19 @@ fn stream_rel(thorough: bool, seed: u64, out: &mut dyn Write) {
         let x = render(&mut r, &a.tokens(), 2);
         let y = render(&mut r, &b.tokens(), 2);
         writeln!(out, "rel {} {}", hex(&x), hex(&y)).unwrap();
+        if i % 16 == 1 {
+            // the same identifier with a well-formed extension of another singleton (rejected today; if it were ever
+            // supported the two must not print alike and differ)
+            let mut z = y.clone();
+            z.extend_from_slice(*r.pick(&[&b"-a-foo"[..], b"-b-bar-baz", b"-0-abc", b"-z-zzz"]));
+            let mut toks = b.tokens();
+            if let Some(pos) = toks.iter().position(|t| t.len() == 1 && t[0].to_ascii_lowercase() == b'x') {
+                toks.insert(pos, w("foo"));
+                toks.insert(pos, w("a"));
+                z = render(&mut r, &toks, 0);
+            }
+            writeln!(out, "rel {} {}", hex(&y), hex(&z)).unwrap();
+        }
         if i % 4 == 0 {
             // the same value along a second route through the safe API
             writeln!(out, "route {} {}", hex(&x), (i / 4) % 8).unwrap();
